@@ -1,9 +1,11 @@
 package main
 
 import (
+	"context"
 	"encoding/json"
 	"fmt"
 	"net/http"
+	"reflect"
 	"runtime"
 	"sort"
 	"sync"
@@ -36,6 +38,140 @@ type world struct {
 	rmu   sync.Mutex // guards res and cases
 	cases *[]Case
 	keep  []*websocket.Conn
+	// every frame seen on the raw connection, and every []Report the real published client
+	// (pkg/status Status.Connect) delivered: the delivered slice itself is kept, uncopied, next to a
+	// deep copy taken at the moment of delivery
+	frames    []frame
+	pmu       sync.Mutex
+	pub       []delivery
+	cancelPub context.CancelFunc
+}
+
+type delivery struct {
+	at   time.Time
+	kept []status.Report
+	snap []status.Report
+}
+
+func deepCopy(rs []status.Report) []status.Report {
+	if rs == nil {
+		return nil
+	}
+	out := make([]status.Report, len(rs))
+	for i, r := range rs {
+		out[i] = r
+		if r.Scopes != nil {
+			out[i].Scopes = append([]string{}, r.Scopes...)
+		}
+	}
+	return out
+}
+
+const publishedUA = "Go-http-client/1.1" // reconws dials without a User-Agent of its own
+
+// startPublished runs the real published client against the stats topic and keeps what it delivers.
+func (w *world) startPublished() {
+	st := status.New()
+	ctx, cancel := context.WithCancel(context.Background())
+	w.cancelPub = cancel
+	now := time.Now().Unix()
+	claims := w.rl.Claims("stats", "c14-published", []string{"read"}, now-2, now-2, now+3600)
+	go st.Connect(ctx, w.rl.AccessURL+"/session/stats", lib.Sign(claims, w.rl.Secret))
+	go func() {
+		for {
+			select {
+			case <-ctx.Done():
+				return
+			case reports := <-st.Status:
+				d := delivery{at: time.Now(), kept: reports, snap: deepCopy(reports)}
+				w.pmu.Lock()
+				w.pub = append(w.pub, d)
+				w.pmu.Unlock()
+			}
+		}
+	}()
+}
+
+func describeDiff(a, b []status.Report) string {
+	if len(a) != len(b) {
+		return fmt.Sprintf("%d reports became %d", len(b), len(a))
+	}
+	for i := range a {
+		if !reflect.DeepEqual(a[i], b[i]) {
+			return fmt.Sprintf("report %d was {topic %q user-agent %q scopes %q tx.last %v} and now reads {topic %q user-agent %q scopes %q tx.last %v}",
+				i, b[i].Topic, b[i].UserAgent, b[i].Scopes, b[i].Stats.Tx.Last, a[i].Topic, a[i].UserAgent, a[i].Scopes, a[i].Stats.Tx.Last)
+		}
+	}
+	return "no difference"
+}
+
+// publishedCheck: what the published client handed out must still say what it said on delivery, must
+// be what the relay emitted at that time, and successive deliveries must not share storage.
+func (w *world) publishedCheck() {
+	if w.cancelPub == nil {
+		return
+	}
+	w.pmu.Lock()
+	pub := append([]delivery{}, w.pub...)
+	w.pmu.Unlock()
+	w.mu.Lock()
+	frames := append([]frame{}, w.frames...)
+	w.mu.Unlock()
+	w.count("published:deliveries")
+	w.rmu.Lock()
+	w.res.CountN("published:deliveries", len(pub)-1)
+	w.rmu.Unlock()
+	if len(pub) < 2 {
+		w.violate(lib.Violation{Clause: "stats-topic-silent", Case: -1, Key: "published-client-silent",
+			Detail: fmt.Sprintf("pkg/status Status.Connect delivered %d report lists during the histories (raw connection: %d frames)", len(pub), len(frames))})
+		return
+	}
+	rewritten, aliased, foreign, matched := 0, 0, 0, 0
+	for i, d := range pub {
+		if !reflect.DeepEqual(d.kept, d.snap) {
+			rewritten++
+			if rewritten == 1 {
+				w.violate(lib.Violation{Clause: "client-rewrites-delivered-report", Case: -1, Key: "client-rewrites-delivered-report",
+					Replay: Case{Kind: "published", Note: "keep every []Report delivered by Status.Connect while joins/leaves change the listing"},
+					Detail: fmt.Sprintf("delivery %d of %d by pkg/status Status.Connect no longer says what it said when it was delivered: %s", i, len(pub), describeDiff(d.kept, d.snap))})
+			}
+		}
+		if i+1 < len(pub) && len(d.kept) > 0 && len(pub[i+1].kept) > 0 && &d.kept[0] == &pub[i+1].kept[0] {
+			aliased++
+			if aliased == 1 {
+				w.violate(lib.Violation{Clause: "client-reuses-delivered-report", Case: -1, Key: "client-reuses-delivered-report",
+					Replay: Case{Kind: "published"},
+					Detail: fmt.Sprintf("deliveries %d and %d by pkg/status Status.Connect share the same backing array", i, i+1)})
+			}
+		}
+		// what the relay emitted at that time, as seen on the raw connection
+		near, same := 0, false
+		for _, f := range frames {
+			dt := f.at.Sub(d.at)
+			if dt < -1500*time.Millisecond || dt > 1500*time.Millisecond || f.err != nil {
+				continue
+			}
+			near++
+			if reflect.DeepEqual(f.reports, d.snap) {
+				same = true
+			}
+		}
+		if near > 0 && same {
+			matched++
+		}
+		if near > 0 && !same {
+			foreign++
+			if foreign == 1 {
+				w.violate(lib.Violation{Clause: "client-reads-different-values", Case: -1, Key: "client-reads-different-values:published-client",
+					Replay: Case{Kind: "published"},
+					Detail: fmt.Sprintf("delivery %d by pkg/status Status.Connect (%d reports) equals none of the %d frames the relay emitted around that time", i, len(d.snap), near)})
+			}
+		}
+	}
+	w.rmu.Lock()
+	w.res.CountN("published:matched-with-emitted-frame", matched)
+	w.rmu.Unlock()
+	w.cancelPub()
 }
 
 func (w *world) violate(v lib.Violation) {
@@ -501,6 +637,7 @@ func startWorld(res *lib.Result, cases *[]Case) *world {
 			reports, derr := decodePublished(data)
 			w.mu.Lock()
 			w.last = frame{seq: seq, at: time.Now(), raw: data, reports: reports, err: derr}
+			w.frames = append(w.frames, w.last)
 			w.mu.Unlock()
 			seq++
 		}
@@ -530,21 +667,20 @@ func (w *world) feederCheck() {
 		}
 		seen = f.seq
 		readerWho, obs = nil, nil
+		script = []Ev{{K: "join", ID: 1, Who: &feeder, Internal: true}}
+		expected = []Ident{feeder}
 		for _, r := range f.reports {
 			if r.Topic == "stats" {
 				id := identOfStatus(r)
 				obs = append(obs, id)
-				if string(id.UserAgent) == "c14-stats-reader" {
+				// the harness's own two readers (raw connection, published client) are the only other members
+				if ua := string(id.UserAgent); ua == "c14-stats-reader" || ua == publishedUA {
 					x := id
 					readerWho = &x
+					script = append(script, Ev{K: "join", ID: uint64(len(script) + 1), Who: readerWho})
+					expected = append(expected, x)
 				}
 			}
-		}
-		script = []Ev{{K: "join", ID: 1, Who: &feeder, Internal: true}}
-		expected = []Ident{feeder}
-		if readerWho != nil {
-			script = append(script, Ev{K: "join", ID: 2, Who: readerWho})
-			expected = append(expected, *readerWho)
 		}
 		if cl, _ := diffIdents(expected, obs); cl == "" {
 			break
@@ -582,6 +718,7 @@ func runHistories(a lib.Args, rng *lib.Rng, w *world) {
 		}
 		wg.Wait()
 	}
+	w.publishedCheck()
 	w.feederCheck()
 	res.CountN("hist:histories", n)
 	runtime.KeepAlive(w.keep)
